@@ -51,6 +51,11 @@ CHECKS["C03"] = dict(
    text="History search with a reference model: generated sequences of add/remove link (one-way, two-way, identity, two-input, LinkSame, LinkTwoWay), add/remove component, append/remove/re-append dataset, with delay blocks, run on a real DataCollection and on a model that computes, per dataset, the least-fixpoint reachable set and the admissible values along minimum-depth chains; after every step reachable sets, values, selections on linked attributes, incompatibility of unreachable ones and the link registry must agree.",
    note="Trusted: the closure model in pbt/props/c03.py; exact arithmetic link functions; same link object never registered twice; no key joins.",
    ref="DESIGN.md section 4 C03")
+CHECKS["C13"] = dict(
+   technique="stateful property-based testing (Hypothesis op lists) with a snapshot-stack oracle for undo/redo",
+   text="History search with a snapshot oracle: generated interleavings of AddData/RemoveData/ApplySubsetState/ApplyROI (all edit modes, generated edit-subset choices), undo, redo and runs of more than 50 commands execute on a real Session; after each undo the observable session state (datasets, groups with label/style/per-dataset masks, per-dataset subsets, edit-subset choice, can_undo_redo) must equal the snapshot taken before the command, after each redo the one taken after it; redo after a new command must raise, the history bound must hold.",
+   note="Trusted: the snapshot function; dataset order not compared; labels/colours not compared after a redo re-creates a group; edit mode fixed per history.",
+   ref="DESIGN.md section 4 C13")
 NOT_APPLICABLE = []
 
 def main():
